@@ -28,6 +28,24 @@ Theorem one_timer_at_most :
 Proof. exact at_most_one_armed. Qed.
 Print Assumptions one_timer_at_most.
 
+(* the same with an output stream that may fail at any print (closed stdout, broken pipe, a status line
+   that cannot be formatted): every operation may raise from its print, in any pattern; the bar is still
+   closed by an exit whose print raises, and a closed bar has no armed timer *)
+Theorem quiescent_with_print_failures :
+  forall fops : list fop,
+    let s := fold_left fstep fops init in
+    closed s = true -> forall i, stat_of i (timers s) <> Armed.
+Proof.
+  intros fops. replace (fold_left fstep fops init) with (fold_left step (map erase fops) init).
+  - exact (quiescent_after_exit (map erase fops)).
+  - generalize init. induction fops as [|f fops IH]; intros s0; [reflexivity|]. cbn [map fold_left]. apply IH.
+Qed.
+Print Assumptions quiescent_with_print_failures.
+
+Theorem failing_exit_closes : forall s, closed (fstep s (PFail Exit)) = true.
+Proof. intros s. apply exit_closes. Qed.
+Print Assumptions failing_exit_closes.
+
 (* the protocol before the repair: callback cancels, caller exits, callback re-arms *)
 Theorem unlocked_protocol_refuted :
   exists trace : list oop,
